@@ -24,7 +24,7 @@ SHRINK_BUDGET = 700
 C10_KINDS = ['tvar', 'tagged', 'list', 'set', 'vtuple', 'tuple', 'dict', 'tlist', 'tset', 'tseq', 'tvtuple', 'ttuple', 'tdict', 'tmap',
              'opt', 'union', 'lit', 'ann', 'tl', 'dl', 'cls', 'enum', 'gen', 'vol', 'range', 'frozenset']
 C10_SCALARS = ['int', 'float', 'str', 'bool', 'none', 'Fraction', 'Decimal', 'date', 'datetime', 'time',
-               'PurePath', 'Pattern', 'bytes', 'complex', 'any', 'int', 'str', 'float']
+               'PurePath', 'Pattern', 'bytes', 'complex', 'any', 'int', 'str', 'float', 'any', 'any']
 
 HANDLER_SPECS = [None, None, None, ['one', 'dbl_int'], ['one', 'upper_str'], ['seq', 'dbl_int', 'upper_str'],
                  ['seq', 'upper_str', 'dbl_int'], ['seq', 'defer_ni', 'dbl_int'], ['seq', 'defer_nie', 'neg_float'],
@@ -331,6 +331,10 @@ def gen_plan(seed: int, cls: str) -> dict:
                                          nest_p=0.8 if knobs.get('hpair') else 0.15,
                                          generic_p=0.1 if knobs.get('hpair') else 0.25,
                                          tag_p=0.5 if 'tagged' in kinds else 0.0)
+                if ro.random() < 0.25 and not spec.get('tag') and 'tuple' not in ((spec.get('opts') or {}).get('in_format') or []):
+                    # an untyped payload: its members are (de)serialised by converters inferred from the run-time values
+                    spec['fields'].append({'n': 'payload', 't': ro.choice([['dict', ['s', 'str'], ['s', 'any']], ['list', ['s', 'any']],
+                                                                             ['s', 'any']]), 'd': None, 'kw': True})
                 if knobs.get('hpair') and spec['fields'] and not spec.get('tv') and not spec.get('base'):
                     f0 = spec['fields'][0]
                     f0['t'] = ['s', 'int' if 'int' in knobs['hpair'][0] else 'str']
@@ -483,11 +487,16 @@ def gen_plan(seed: int, cls: str) -> dict:
             ops.append({'op': 'arm', 'handler': ro.choice(['faulty_dbl_int', 'faulty_upper_str']),
                         'k': ro.choice([1, 1, 2, 3]), 'exc': ro.choice(['RuntimeError', 'KeyError', 'ValueError'])})
     if knobs.get('hpair'):
-        ops.extend(_role_collision_scenario(ro, sym, roots, knobs, hspecs, nroot))
+        extra, nroot = _role_collision_scenario(ro, sym, roots, knobs, hspecs, nroot)
+        ops.extend(extra)
     if ro.random() < 0.5:
-        ops.extend(_serialise_history_scenario(ro, sym, roots, ninst))
+        extra, ninst = _serialise_history_scenario(ro, sym, roots, ninst)
+        ops.extend(extra)
     if roots and ro.random() < 0.3:
         ops.extend(_equal_values_scenario(ro, sym, roots, pick_custom))
+    if ro.random() < 0.7:
+        extra, nroot, ninst = _inferred_serialiser_scenario(ro, sym, roots, nroot, ninst)
+        ops.extend(extra)
     if knobs['faults'] and roots:
         # a handler that raises part-way through converter construction, then the same call again, then others
         for _ in range(ro.choice([1, 2])):
@@ -532,14 +541,64 @@ def _equal_values_scenario(ro, sym, roots, pick_custom):
     return out
 
 
+def _inferred_serialiser_scenario(ro, sym, roots, nroot, ninst):
+    """
+    A dataclass with class-level handlers and an untyped payload is serialised (its payload members get converters
+    inferred from their run-time types, under the class's handlers); afterwards plain containers are serialised /
+    passed to a constructor with no handlers at all.  The second step must not inherit anything from the first.
+    """
+    cands = [n for (n, sp) in sorted(sym.class_specs.items())
+             if not sp.get('tv') and sp.get('custom') and any(f['n'] == 'payload' for f in sp['fields'])]
+    if not cands:
+        return [], nroot, ninst
+    cname = ro.choice(cands)
+    spec = sym.class_specs[cname]
+    out = []
+    croot = next((r for (r, a) in sorted(roots.items()) if a == ['cls', cname]), None)
+    if croot is None:
+        croot = f'r{nroot}'
+        nroot += 1
+        roots[croot] = ['cls', cname]
+        out.append({'op': 'build', 'name': croot, 't': ['cls', cname]})
+    pf = next(f for f in spec['fields'] if f['n'] == 'payload')
+    nested = {'n': 250, 'm': {'k': 3}, 's': 'txt', 'l': [1, 2]}
+    payload = nested if pf['t'][0] == 'dict' else ([nested, [4, 'x']] if pf['t'][0] == 'list' else nested)
+    data = tg.sample_instance_data(spec, {}, sym, ro, 1.0, 'ascii', 0)
+    if not isinstance(data, dict):
+        return [], nroot, ninst
+    data = dict(data)
+    opts = spec.get('opts') or {}
+    pname = 'payload'
+    if opts.get('rename'):
+        from pane.field import rename_field
+        pname = rename_field('payload', opts['rename'])
+    data[pname] = payload
+    i0 = f'i{ninst}'
+    ninst += 1
+    out.append({'op': 'keep', 'as': i0, 'root': croot, 'data': tg.enc(data), 'custom': None})
+    out.append({'op': 'serialise', 'inst': i0, 'root': croot, 'infer': ro.random() < 0.3, 'roundtrip': False, 'custom': None})
+    # step 2: plain containers, no handlers anywhere
+    shape = ro.choice([['dict', ['s', 'str'], ['s', 'any']], ['list', ['s', 'any']], ['dict', ['s', 'str'], ['s', 'int']]])
+    proot = f'r{nroot}'
+    nroot += 1
+    roots[proot] = shape
+    out.append({'op': 'build', 'name': proot, 't': shape})
+    pdata = {'n': 250, 'z': 7} if shape[0] == 'dict' else [250, {'n': 7}]
+    i1 = f'i{ninst}'
+    ninst += 1
+    out.append({'op': 'keep', 'as': i1, 'root': proot, 'data': tg.enc(pdata), 'custom': None})
+    out.append({'op': 'serialise', 'inst': i1, 'root': proot, 'infer': True, 'roundtrip': ro.random() < 0.5, 'custom': None})
+    return out, nroot, ninst
+
+
 def _serialise_history_scenario(ro, sym, roots, ninst):
     """
     Several values of one (union-bearing) type serialised through the same memoised converter:
     a converter that remembers anything about earlier values shows up here.
     """
-    cands = [r for (r, a) in sorted(roots.items()) if tg.contains(a, lambda x: x[0] in ('union', 'opt', 'vol'))]
+    cands = [r for (r, a) in sorted(roots.items()) if tg.contains(a, lambda x: x[0] in ('union', 'opt', 'vol', 'cls', 'gen', 'dict', 'list'))]
     if not cands:
-        return []
+        return [], ninst
     r = ro.choice(cands)
     out = []
     names = []
@@ -552,8 +611,8 @@ def _serialise_history_scenario(ro, sym, roots, ninst):
     order = names * 2
     ro.shuffle(order)
     for iname in order[:ro.choice([2, 3, 4, 5])]:
-        out.append({'op': 'serialise', 'inst': iname, 'root': r, 'infer': False, 'roundtrip': ro.random() < 0.3, 'custom': None})
-    return out
+        out.append({'op': 'serialise', 'inst': iname, 'root': r, 'infer': ro.random() < 0.4, 'roundtrip': ro.random() < 0.3, 'custom': None})
+    return out, ninst
 
 
 def _role_collision_scenario(ro, sym, roots, knobs, hspecs, nroot):
@@ -572,7 +631,7 @@ def _role_collision_scenario(ro, sym, roots, knobs, hspecs, nroot):
                 if iname != oname and not ispec.get('tv') and tg.contains(f['t'], lambda a: a == ['cls', iname]):
                     pairs.append((oname, iname))
     if not pairs:
-        return out
+        return out, nroot
     (oname, iname) = ro.choice(sorted(set(pairs)))
     names = {}
     for cname in (oname, iname):
@@ -591,7 +650,7 @@ def _role_collision_scenario(ro, sym, roots, knobs, hspecs, nroot):
         r = names[cname]
         out.append({'op': 'convert', 'root': r, 'custom': ro.choice(hspecs),
                     'data': tg.enc(tg.sample_value(roots[r], sym, ro, valid_p=1.0))})
-    return out
+    return out, nroot
 
 
 # ---------------------------------------------------------------------------------------------
@@ -733,7 +792,11 @@ class Exec:
                                     f"{what}: with history {self._short(real_fp)} but on freshly defined, equivalent "
                                     f"type objects {self._short(fresh_fp)}")
             w2.clear()
-        if cs is not None and self.pristine is not None and self.oracle_rng.random() < self.knobs.get('pristine_p', 0.3):
+        # calls whose converter is inferred from run-time values (serialisation without a declared type, the
+        # constructor path) are the ones a process-wide, value-type-keyed cache would poison: always judged
+        # against a pristine process; the others are sampled
+        p_pristine = 1.0 if (cs is not None and cs['kind'] in ('serialise', 'construct')) else self.knobs.get('pristine_p', 0.3)
+        if cs is not None and self.pristine is not None and self.oracle_rng.random() < p_pristine:
             fp3 = self.pristine.call(self.pristine_request(cs, deps))
             self.count('pristine_process_compared')
             self.trace.add('pristine', h64(canon(order_free(fp3))) % 10**9 if fp3 is not None else None)
@@ -1258,7 +1321,7 @@ def execute(plan, want_trace=False) -> dict:
     if plan['cls'] == 'threads':
         return execute_threads(plan, want_trace)
     from .kernel import PristineServer
-    srv = PristineServer(pristine_eval) if plan['knobs'].get('pristine_p', 0.3) > 0 else None
+    srv = PristineServer(pristine_eval)
     ex = Exec(plan)
     ex.pristine = srv
     try:
